@@ -66,7 +66,7 @@ def c09_small_product(n):
                         if K is None:
                             strides = [None]
                         else:
-                            strides = [None] + sorted({s for s in (w - 1, w, w + 1, n) if s >= 1})
+                            strides = [None] + sorted({s for s in (0, w - 1, w, w + 1, n) if s >= 0})
                         for st in strides:
                             sep = ':' if (st is not None and (lo + hi + st) % 3 == 0) else '='
                             out.append((base, form, [(lo, hi)], ty, K, st, sep))
